@@ -30,18 +30,22 @@ async fn roles_of(rig: &Rig, proxy: &str) -> Value {
             if let Resp::Arr(Array::Arr(lines)) = it {
                 let mut role = String::new();
                 let mut node = String::new();
+                let mut peers: Vec<String> = vec![];
                 for l in lines {
                     if let Resp::Bulk(BulkStr::Str(b)) = l {
                         let s = String::from_utf8_lossy(&b).trim().to_string();
                         if let Some(x) = s.strip_prefix("role:") {
                             role = x.to_string();
-                        }
-                        if let Some(x) = s.strip_prefix("node_address:") {
+                        } else if let Some(x) = s.strip_prefix("node_address:") {
                             node = x.to_string();
+                        } else if let Some(x) = s.strip_prefix("replica:").or_else(|| s.strip_prefix("master:")) {
+                            // <peer node>@<peer proxy>
+                            peers.push(x.to_string());
                         }
                     }
                 }
-                out.push(json!({"node": node, "role": role}));
+                peers.sort();
+                out.push(json!({"node": node, "role": role, "peers": peers}));
             }
         }
     }
